@@ -1217,9 +1217,8 @@ def corpus():
     # targets, through consts, in argument lists
     docs.append(Doc('denum', [
         Enum('Level', [('low', 1), ('LOW', 2), ('Low', 3), ('fooBar', 4), ('FOO_BAR', 5), ('plain_one', 6), ('Plain_Two', -7)]),
-        Enum('Ren', [('ALPHA', 1, {'pilota.name': 'First'}), ('beta', 2, {'pilota.name': 'SECOND_ONE'}), ('GAMMA', 3), ('gamma', 4)]),
         Typedef('Lv', R('Level')), Typedef('Levels', L(R('Level'))),
-        Const('K_L1', R('Level'), I(1)), Const('K_L3N', R('Level'), Id('Level.Low')), Const('K_R2', R('Ren'), I(2)),
+        Const('K_L1', R('Level'), I(1)), Const('K_L3N', R('Level'), Id('Level.Low')),
         Const('K_LIST', L(R('Level')), LL(I(1), Id('Level.LOW'), I(3), I(4))), Const('K_MAP', M('string', R('Level')), LM((Str('a'), I(3)), (Str('b'), Id('Level.low')))),
         Struct('EnumD', [
             F(1, 'n1', R('Level'), 'default', I(1)), F(2, 'n2', R('Level'), 'required', I(2)), F(3, 'n3', R('Level'), 'optional', I(3)),
@@ -1235,13 +1234,23 @@ def corpus():
             F(30, 'td', R('Lv'), 'default', I(3)), F(31, 'tdl', R('Levels'), 'optional', LL(I(1), I(5))),
             F(40, 'c1', R('Level'), 'default', Id('K_L1')), F(41, 'c3', R('Level'), 'optional', Id('K_L3N')), F(42, 'cl', L(R('Level')), 'default', Id('K_LIST')),
             F(43, 'cm', M('string', R('Level')), 'default', Id('K_MAP')), F(44, 'ci', 'i32', 'default', Id('Level.Low')), F(45, 'ck', 'i64', 'default', Id('K_L1')),
-            F(50, 'r1', R('Ren'), 'default', I(1)), F(51, 'r2', R('Ren'), 'required', I(2)), F(52, 'r4', R('Ren'), 'optional', I(4)),
-            F(53, 'ra', R('Ren'), 'default', Id('Ren.ALPHA')), F(54, 'rb', R('Ren'), 'default', Id('Ren.beta')), F(55, 'rl', L(R('Ren')), 'default', LL(I(2), Id('Ren.gamma'), I(3))),
-            F(56, 'rc', R('Ren'), 'default', Id('K_R2')),
         ]),
         Service('EnumSvc', [Method('pick', R('Level'), [F(1, 'a', R('Level'), 'default', I(1)), F(2, 'b', R('Level'), 'optional', I(3)),
-                                                       F(3, 'c', L(R('Ren')), 'default', LL(I(1), I(2)))])]),
+                                                       F(3, 'c', L(R('Level')), 'default', LL(I(3), I(2)))])]),
     ], style=2))
+
+    # ---- denumr: members renamed by pilota.name (a document of its own: a member path spelled from the raw name names nothing
+    # here, the emitted code does not compile, and the other documents are still evaluated)
+    docs.append(Doc('denumr', [
+        Enum('Ren', [('ALPHA', 1, {'pilota.name': 'First'}), ('beta', 2, {'pilota.name': 'SECOND_ONE'}), ('GAMMA', 3), ('gamma', 4)]),
+        Const('K_R2', R('Ren'), I(2)),
+        Struct('RenD', [
+            F(50, 'r1', R('Ren'), 'default', I(1)), F(51, 'r2', R('Ren'), 'required', I(2)), F(52, 'r4', R('Ren'), 'optional', I(4)),
+            F(53, 'ra', R('Ren'), 'default', Id('Ren.ALPHA')), F(54, 'rb', R('Ren'), 'default', Id('Ren.beta')), F(55, 'rl', L(R('Ren')), 'default', LL(I(2), Id('Ren.gamma'), I(3))),
+            F(56, 'rc', R('Ren'), 'default', Id('K_R2')), F(57, 'rm', M('string', R('Ren')), 'default', LM((Str('k'), I(1)))),
+        ]),
+        Service('RenSvc', [Method('pick', R('Ren'), [F(1, 'c', L(R('Ren')), 'default', LL(I(1), I(2)))])]),
+    ], style=1))
 
     # ---- denumnc: the same with Builder::change_case(false) (configuration `nocase` only): every name is kept as written, so a
     # member path built by any case conversion names nothing.  Type / field / module names here are invariant under the conversion
